@@ -39,7 +39,7 @@ fn check_val(r: &Report, sub: &str, ty: &str, v: &dyn ErasedVal) -> bool {
     true
 }
 
-fn tokens() -> Vec<Token<'static>> {
+pub fn tokens() -> Vec<Token<'static>> {
     let mut v = vec![Token::Bool(false), Token::Bool(true), Token::Null, Token::Undefined, Token::Break, Token::BeginBytes, Token::BeginString, Token::BeginArray, Token::BeginMap];
     let lat = enumerate::lattice64();
     for n in &lat {
